@@ -1533,6 +1533,7 @@ func travCase(c *Ctx, root *newick.Node, kind string, withModel bool, stops bool
 			recPost(root, &want)
 		}
 		limit := len(want) + 16
+		c.begin("traversal (pre=%v) of a %d-node tree (%s): %s", pre, len(want), kind, trunc(treeS(root), 300))
 		var got []string
 		reuse := ""
 		st := safe(func() string {
